@@ -107,6 +107,8 @@ func runOne(t *testing.T, sc *props.Scenario, tier string, wt, st *simkit.Tape) 
 		cfg := sc.Cfg
 		cfg.Immediate = sc.NoBubble
 		w := simkit.NewWorld(t, wt, st, cfg)
+		simkit.SetCurrent(w)
+		defer simkit.SetCurrent(nil)
 		currentProgress.Store(w.Progress)
 		w.OnTaskPanic = func(tk *simkit.Task) *simkit.Violation { return props.PanicViolation(sc.Prop, tk) }
 		w.SetEpoch(wt.Choose(86400 * 300))
